@@ -677,6 +677,10 @@ func (c *Cluster) runStoreEngine(ops []*storeOp) {
 func (s *storeRun) resetPhase() {
 	c := s.c
 	m := s.model
+	// a kill or commit error armed by the last captured write and not reached
+	// yet must not fire inside the reset phase (nothing recovers it there)
+	s.crashAt = 0
+	s.failNext = false
 	rounds := make([]int, 0, len(m.frames))
 	for r := range m.frames {
 		if _, dk := m.doubt[fmt.Sprintf("frame:%d", r)]; !dk {
